@@ -42,6 +42,9 @@ func runText(b *recB, m *mon, seg segSpec) {
 		}
 		rng := b.SubRng("text/" + name)
 		t := &target{name: name, kind: "text", call: e.Call}
+		if e.Kind == "json" {
+			t.perByte = 4096
+		}
 		f := m.feeder(t)
 		fuzzTextEntry(b, f, e, rng, lv)
 		f.flush()
